@@ -47,6 +47,8 @@ def execTableOp (st : DState) (env0 : Env) (name : String) (args : List String) 
   | "extract_if", [k] => no <| resOut (Map.extractIf cfg env (nat! k) w) elems w
   | "drain", [k, fg] => no <| resOut (Map.drain cfg env (nat! k) (fg == "1") w) elems w
   | "into_iter", [k] => no <| resOut (Map.intoIter cfg env (nat! k) w) elems w
+  | "drain_fold", [k] => no <| resOut (Map.drain cfg (foldEnv env (nat! k) w) (if nat! k = 0 then w.t.items else nat! k) false w) elems w
+  | "into_iter_fold", [k] => no <| resOut (Map.intoIter cfg (foldEnv env (nat! k) w) (if nat! k = 0 then w.t.items else nat! k) w) elems w
   | "iter", p :: _ =>
     match Map.iterObserve cfg w.t (nat! p) with
     | .error f => ({ ret := s!"FAULT({f})", w := w }, true, none)
